@@ -2,7 +2,7 @@
 From Coq Require Import ZArith Bool List Lia.
 From Coq Require Import Strings.String Strings.Byte Floats.SpecFloat.
 From JaqV Require Import Base.F64 Base.Bytes Base.Stream Val.Num Val.Val Val.Utf8 Val.Err Val.Arith Val.Index
-  Core.Natives Json.Write Json.Read Std.Time.
+  Core.Natives Json.Write Json.Read Std.Time Std.Codec.
 Import ListNotations.
 Local Open Scope Z_scope.
 
@@ -270,6 +270,33 @@ Definition std_run (fuel : nat) (name : bytes) (args : list narg) (v : val) : op
               | Arr _ => SUnk
               | _ => serr (ETyp v TArr)
               end)
+      else if name_is name "escape_html" then Some (of_res (rmap (fun b => TStr (html_escape b)) (as_utf8_bytes v)))
+      else if name_is name "unescape_html" then Some (of_res (rmap (fun b => TStr (html_unescape (List.length b) b)) (as_utf8_bytes v)))
+      else if name_is name "encode_uri" then Some (of_res (rmap (fun b => TStr (uri_encode b)) (as_utf8_bytes v)))
+      else if name_is name "decode_uri" then Some (of_res (rmap (fun b => TStr (uri_decode (List.length b) b)) (as_utf8_bytes v)))
+      else if name_is name "encode_base64" then Some (of_res (rmap (fun b => TStr (b64_encode b)) (as_utf8_bytes v)))
+      else if name_is name "decode_base64" then
+        Some (match as_utf8_bytes v with
+              | Ok b => match b64_decode (S (List.length b)) b with Some r => sone (TStr r) | None => serr (EOther 7) end
+              | Err e => serr e
+              end)
+      else if name_is name "escape_sh" then Some (of_res (rmap (fun b => TStr (flat_map sh_esc1 b)) (as_utf8_bytes v)))
+      else if name_is name "tobytes" then
+        Some (let fix tb (n : nat) (v : val) : option bytes :=
+                match n with
+                | O => None
+                | S n =>
+                    match v with
+                    | Num x => match as_isize x with
+                               | Some i => if (0 <=? i) && (i <=? 255) then Some [zb i] else None
+                               | None => None
+                               end
+                    | BStr b | TStr b => Some b
+                    | Arr a => fold_left (fun acc x => match acc, tb n x with Some l, Some r => Some (l ++ r) | _, _ => None end) a (Some [])
+                    | _ => None
+                    end
+                end in
+              match tb (S (depth v)) v with Some b => sone (BStr b) | None => serr (EOther 8) end)
       else if name_is name "ascii_downcase" then Some (of_res (rmap (fun b => TStr (ascii_map lower b)) (as_utf8_bytes v)))
       else if name_is name "ascii_upcase" then Some (of_res (rmap (fun b => TStr (ascii_map upper b)) (as_utf8_bytes v)))
       else if name_is name "reverse" then Some (of_res (rmap (fun a => Arr (rev a)) (need_arr v)))
